@@ -29,7 +29,7 @@ def _work(args):
 def run(tier, seed, replay=None):
     assert_repo_import()
     chk = Check("C13", tier, seed)
-    model_ok = chk.proof_stage(["Gsm/Dfa.vo"])
+    model_ok = chk.proof_stage(["Gsm/Dfa.vo", "Gsm/DfaProofs.vo"])
     max_size, max_len = (4, 4) if tier == "quick" else (5, 5)
     words = G.all_words([1, 2, 3], max_len) + [w for w in G.all_words([1, 2, 3, 4], 2 if tier == "quick" else 3) if 4 in w]
     exprs = list(G.all_exprs(max_size))
